@@ -12,6 +12,12 @@ Local Open Scope num_scope.
 Definition gen_quirks : quirks :=
   {| q_unweighted_skips := existsb is_unw gen_unif_weighted; q_ps2_via_inner := gen_ps2_via_inner |}.
 
+(* _inner_default: in EVERY size regime real data get the plain sum (the model's [dot]) and complex
+   data the sum with the SECOND argument conjugated (the model's [c_inner_v]) *)
+Lemma tie_inner_default : forall large : bool,
+  ksel true large gen_inner_default = KBilinear /\ ksel false large gen_inner_default = KConjSecond.
+Proof. intros [|]; split; reflexivity. Qed.
+
 Section Tie.
 Context {T : Type} `{Num T} `{Root T}.
 
